@@ -8,12 +8,15 @@ from . import anngen
 from .common import Mode1, conformance, judge
 
 INSTS = ["I1"]
-DSTS = ["mc", "a1", "a2", "a3"]
+DSTS = ["mc", "a1", "a2", "a3", "a4", "a5"]
 
 
 def gen(rng, n, collect):
     sched, tag, started = [], 0, False
     t = 0
+    # destinations of this history: multicast and two IPv4 peers, or two peers that differ only in their IPv6 scope id
+    dsts = ["mc", "a4", "a5"] if rng.random() < 0.25 else ["mc", "a1", "a2"]
+    huge = rng.random() < 0.1        # one history in ten: bursts that do not fit one 1400-byte datagram
     for _ in range(n):
         dt = rng.choice([0, 0, 0, 0, 1, 1, 2] if collect else [0, 0, 1, 2])
         t += dt
@@ -26,10 +29,12 @@ def gen(rng, n, collect):
             started = not started
         else:
             burst = rng.choice([1, 1, 1, 2, 3, rng.randint(16, 40)]) if r < 0.95 else 1
-            dst = rng.choice(DSTS[:3])
+            if huge and burst > 3:
+                burst = rng.randint(90, 130)
+            dst = rng.choice(dsts)
             for _ in range(burst):
                 tag += 1
-                sched.append({"t": t, "j": j, "op": "queue", "dst": dst if rng.random() < 0.8 else rng.choice(DSTS[:3]),
+                sched.append({"t": t, "j": j, "op": "queue", "dst": dst if rng.random() < 0.8 else rng.choice(dsts),
                               "en": {"ty": "offer", "svc": "g", "tag": tag, "ttl": 5, "opts": []}})
     return sched
 
